@@ -42,3 +42,20 @@ Theorem C07_negotiate_any_header : forall lines offers d,
     lexmax_b specs offers d (negotiate_content_type specs offers d) = true.
 Proof. exact negotiate_parsed_lexmax. Qed.
 Print Assumptions C07_negotiate_any_header.
+
+(* a range whose q-value denotes a smaller number never outranks one denoting a larger number:
+   for any two literals (any number of digits), literal order implies quality order *)
+From V Require Import QualityProofs.
+Theorem C07_quality_monotone : forall s1 s2 n1 d1 n2 d2,
+  q_literal s1 = Some (n1, d1) -> q_literal s2 = Some (n2, d2) ->
+  (n1 * d2 <= n2 * d1)%Z ->
+  q_lt (fst (expect_quality s2)) (fst (expect_quality s1)) = false.
+Proof. exact quality_monotone. Qed.
+Print Assumptions C07_quality_monotone.
+
+(* the quality is the literal's value truncated to 15 fractional digits: never above it, less than 10^-15 below *)
+Theorem C07_quality_value : forall s n d, q_literal s = Some (n, d) ->
+  let q := fst (expect_quality s) in
+  (0 < qd q /\ q_num q * d <= n * qd q /\ (n * qd q - q_num q * d) * P10 15 < d * qd q)%Z.
+Proof. exact quality_truncates. Qed.
+Print Assumptions C07_quality_value.
